@@ -86,7 +86,9 @@ package resolve
 //@ func RateLimiter.RateLimitPreFetch
 //@   modifies global(ext)
 //@   trusted interface method, implementations are outside package resolve
+//@ spec depsOf(f Fetch) *FetchDependencies
 //@ func Fetch.Dependencies
+//@   ensures result == depsOf(recv)
 //@   pure
 //@   trusted plan accessor
 //@ func Fetch.FetchKind
@@ -159,6 +161,7 @@ package resolve
 //@   let skip = prepared.skipLoad
 //@   at call executeSourceLoad: assert {send.only.if.not.skipped} !skip
 //@   ensures {skipped.sends.nothing} skip ==> count(sent) == old(count(sent))
+//@   ensures {subgraph.failure.is.not.a.request.error} result == nil
 //@   modifies *, count(*)
 //@   safety nil
 
@@ -174,7 +177,19 @@ package resolve
 //@   at call taintedObjects.add: assert {taint.only.on.success} !failed
 //@   ensures {no.merge.on.failure} failed ==> count(merged) == old(count(merged)) && count(dataSet) == old(count(dataSet))
 //@   ensures {transport.error.reported} transport && result == nil ==> count(errorRendered) > old(count(errorRendered))
-//@   modifies *, count(merged), count(dataSet), count(errorRendered), count(arrayAppended), count(jsonSet)
+//@   let skipped = res.fetchSkipped
+//@   let suppress = l.apolloCompatibilitySuppressFetchErrors
+//@   ghost var g_benign bool = false
+//@   at call isEmptyEntityFetch: ghost g_benign = g_benign || result
+//@   at call result.emptyAliasIsBenign: ghost g_benign = g_benign || result
+//@   ensures {silent.success.only.if.merged.or.benign} result == nil ==> count(merged) > old(count(merged)) || count(dataSet) > old(count(dataSet)) || count(errorRendered) > old(count(errorRendered)) || count(errorsMerged) > old(count(errorsMerged)) || g_benign || skipped || suppress || (res.batchStats != nil && g_batchLen == len(res.batchStats))
+//@   modifies *, count(merged), count(dataSet), count(errorRendered), count(errorsMerged), count(arrayAppended), count(jsonSet)
+//@   ghost var g_batchLen int = 0 - 1
+//@   at call Value.GetArray: ghost g_batchLen = len(result)
+//@   loop 0:
+//@     invariant res.batchStats != nil && g_batchLen == len(res.batchStats)
+//@   loop 2:
+//@     invariant phi0 >= 0 ==> count(merged) > old(count(merged))
 
 //@ func Loader.renderErrorsFailedToFetch
 //@   modifies *, count(arrayAppended)
@@ -198,24 +213,36 @@ package resolve
 //@   trusted effect summary
 //@ func Loader.mergeErrors
 //@   modifies *, count(arrayAppended), count(jsonSet)
+//@   emits errorsMerged
 //@   trusted effect summary: merges subgraph errors into l.errors; never merges data
 //@ func Loader.setSkipErrors
 //@   modifies *, count(jsonSet)
 //@   trusted effect summary: sets the __skipErrors marker on the parent items
 
+//@ decl stable FetchItem.Fetch
+//@ decl stable result.batchStats by Loader.prepareBatchEntityFetch
+//@ decl stable FetchDependencies.FetchID
+//@ decl stable FetchDependencies.DependsOnFetchIDs
+//@ decl stableelems int
+
 //@ func Loader.recordErroredFetchIDLocked
 //@   requires l != nil
-//@   modifies *
+//@   ensures {recorded} item != nil && item.Fetch != nil && depsOf(item.Fetch) != nil ==> l.erroredFetchIDs != nil && has(l.erroredFetchIDs, depsOf(item.Fetch).FetchID)
+//@   ensures {others.kept} forall k :: old(has(l.erroredFetchIDs, k)) ==> has(l.erroredFetchIDs, k)
+//@   modifies l.erroredFetchIDs, mapof(l.erroredFetchIDs)
 //@   safety nil
 
 //@ func Loader.shouldSkipErroredDependencyLocked
 //@   requires l != nil
-//@   ghost var g_found bool = false
+//@   let deps = depsOf(item.Fetch)
 //@   ensures {no.errors.no.skip} old(len(l.erroredFetchIDs)) == 0 ==> !result
-//@   modifies *
+//@   ensures {skips.iff.a.dependency.errored} item != nil && item.Fetch != nil && deps != nil && old(len(l.erroredFetchIDs)) != 0 ==> (result <==> (exists d in 0..len(deps.DependsOnFetchIDs) :: old(has(l.erroredFetchIDs, deps.DependsOnFetchIDs[d]))))
+//@   ensures {skipped.fetch.is.recorded.as.errored} result ==> deps != nil && has(l.erroredFetchIDs, deps.FetchID)
+//@   modifies l.erroredFetchIDs, mapof(l.erroredFetchIDs)
 //@   safety nil
 //@   loop 0:
-//@     invariant true
+//@     invariant forall k in 0..phi0 + 1 :: !has(l.erroredFetchIDs, deps.DependsOnFetchIDs[k])
+//@     invariant unchanged(l.erroredFetchIDs) && (forall k :: has(l.erroredFetchIDs, k) <==> old(has(l.erroredFetchIDs, k)))
 
 // preparePhase / mergePhase: the whole body runs under the data lock (C08 lock discipline); a fetch
 // whose dependency failed is not prepared (C07)
